@@ -56,3 +56,26 @@ func (tw *trimWriter) Flush() (int, error) {
 	}
 	return 0, nil
 }
+
+// WriteVerbatim writes output that is not literal text of the template: the value of an
+// object, the body of a raw block, what a tag writes. Whitespace control applies to the
+// literal text next to a tag and does not reach into such output from either side: a
+// pending right trim is dropped instead of applied, and the bytes are flushed at once,
+// so that a later TrimLeft finds nothing of them to strip.
+func (tw *trimWriter) WriteVerbatim(b []byte) (int, error) {
+	tw.trim = false
+	if n, err := tw.Write(b); err != nil {
+		return n, err
+	}
+	return tw.Flush()
+}
+
+// verbatimWriter is the io.Writer view of WriteVerbatim.
+type verbatimWriter struct{ tw *trimWriter }
+
+func (v verbatimWriter) Write(b []byte) (int, error) {
+	if _, err := v.tw.WriteVerbatim(b); err != nil {
+		return 0, err
+	}
+	return len(b), nil
+}
